@@ -26,6 +26,14 @@ def workloads():
     w["W4_eval_nested_changed"] = dict(setup=[B("eval", "fsm_a1", "root")], crash=B("eval", "fsm_a2", "root"),
                                        paths={"/a/x": ("fsm_a2", "f"), "/a/b/y": ("fsm_a2", "g")},
                                        old={"/a/x": ("fsm_a1", "f"), "/a/b/y": ("fsm_a1", "g")})
+    # the code is edited after the crash: the recovery evaluates another version than the one that was killed
+    w["W7_first_keep_then_edit"] = dict(setup=[], crash=B("keep", "fsm_a1", "f", "/a/x"), recover_as=B("keep", "fsm_a2", "f", "/a/x"),
+                                        paths={"/a/x": ("fsm_a2", "f")})
+    w["W7_rekeep_then_revert"] = dict(setup=[B("keep", "fsm_a1", "f", "/a/x")], crash=B("keep", "fsm_a2", "f", "/a/x"),
+                                      recover_as=B("keep", "fsm_a1", "f", "/a/x"), paths={"/a/x": ("fsm_a1", "f")}, old={"/a/x": ("fsm_a1", "f")},
+                                      old_new={"/a/x": ("fsm_a2", "f")})
+    w["W7_eval_then_edit"] = dict(setup=[], crash=B("eval", "fsm_a1", "root"), recover_as=B("eval", "fsm_a2", "root"),
+                                  paths={"/a/x": ("fsm_a2", "f"), "/a/b/y": ("fsm_a2", "g")})
     w["W5_rekeep_cached"] = dict(setup=[B("keep", "fsm_a1", "f", "/a/x", kw(cache=2))], crash=B("keep", "fsm_a2", "f", "/a/x", kw(cache=2)),
                                  paths={"/a/x": ("fsm_a2", "f")}, old={"/a/x": ("fsm_a1", "f")}, kw=kw(cache=2))
     w["W6_second_data_view"] = dict(setup=[B("keep", "fsm_a1", "f", "/a/x", kw(data="d1"))], crash=B("keep", "fsm_a1", "f", "/a/x", kw(data="d2")),
@@ -61,10 +69,10 @@ def recover(m, vfs, wl, wname, after, case, second_kill=None, pid0=70):
     def bad(sym, what):
         probs.append((f"C06|{wname}|{sym}|after={after}", what, case))
 
-    crash = wl["crash"].desc
+    crash = wl.get("recover_as", wl["crash"]).desc
     # (1) paths committed before the killed evaluation began still load their old or their new complete value
     for path, (mod, fn) in wl.get("old", {}).items():
-        allowed = [SC.expected(mod, fn), SC.expected(*wl["paths"][path])]
+        allowed = [SC.expected(mod, fn), SC.expected(*wl.get("old_new", wl["paths"])[path])]
         res, _, _ = E.run_sequential(m, vfs, SC.body("load", None, None, path, skw), pid=pid0)
         if res[0] != "ok":
             bad(f"committed_path_lost|{res[1]}", f"load({path}) after the crash raised {res[1]}: {res[3]}")
